@@ -75,11 +75,19 @@ def _driver_locked():
     if _driver:
         return _driver
     t0 = time.time()
+    hdir = HARNESS
+    if os.path.realpath(REPO) != "/repo":
+        # another tree (VERIF_REPO): build a copy of the harness whose module replacement points there
+        hdir = os.path.join(scratch(), "harness")
+        shutil.copytree(HARNESS, hdir)
+        gm = os.path.join(hdir, "go.mod")
+        text = open(gm).read().replace("=> /repo", "=> " + os.path.realpath(REPO))
+        open(gm, "w").write(text)
     gosum = os.path.join(REPO, "go.sum")
     if os.path.exists(gosum):
-        shutil.copyfile(gosum, os.path.join(HARNESS, "go.sum"))
+        shutil.copyfile(gosum, os.path.join(hdir, "go.sum"))
     out = os.path.join(scratch(), "rigodrv")
-    p = subprocess.run(["go", "build", "-tags", "verif", "-o", out, "./cmd/rigodrv"], cwd=HARNESS, env=GOENV,
+    p = subprocess.run(["go", "build", "-tags", "verif", "-o", out, "./cmd/rigodrv"], cwd=hdir, env=GOENV,
                        stdout=subprocess.PIPE, stderr=subprocess.STDOUT, text=True)
     if p.returncode != 0:
         raise MachineryError("harness build failed against %s:\n%s" % (REPO, p.stdout[-4000:]))
